@@ -32,6 +32,16 @@ def gen(tier, rng, harness=None):
             lines.append("!flags.rt di %d" % v)
         for v in range(0, 64):
             lines += ["flags.alloc %d" % v, "!flags.rt alloc %d" % v]
+    # calling conventions by NUMBER (printed by the hand-written helper ir/helper.go callingConvString: keyword, or `cc N` for a number without one): every value
+    # 0..1100 set in the field of a declaration and of a call site is read back as that value
+    lines += ["!cc.rt %d" % n for n in range(0, 1101)]
+    # enum members printed INSIDE a structured attribute by a hand-written String method (`uwtable(sync)`, `uwtable(async)`, `allockind("…")`, `memory`-like forms):
+    # the catalogue entries `enumattr.*` must keep the member they were written with
+    from . import catalog
+    def hx(x): return (x if isinstance(x, bytes) else x.encode()).hex()
+    for name, text, frags in catalog.round17_entries():
+        if name.startswith("enumattr."):
+            lines.append("!mod.keeps %s %s" % (hx("\x1f".join(frags)), hx(text)))
     # keywords in situ: a FloatType that was printed as one kind prints its current kind after an edit (all ordered pairs of the 6 kinds)
     lines += ["!kw.floathist %d %d" % (a, b) for a in range(6) for b in range(6)]
     n = 300 if tier == "quick" else 20000
